@@ -155,6 +155,11 @@ class Sess:
         boots, tm = self.new_ident()
         self.agent = rigp.Agent(self.handle, engine_id=self.engine_id, boots=boots, etime=tm,
                                 users=[cfg.user_keys()], rng=random.Random(rng.random()))
+        if rng.random() < knobs.get("foreign_context", 0.3):
+            # an agent whose scoped PDUs (Reports included) carry a contextEngineID that is not its authoritative engine
+            # id (a proxy / several contexts - RFC 3411 allows it), or none at all: nothing the client stamps on its
+            # requests may be taken from there
+            self.agent.ctx_engine_id = rng.choice([b"", bytes([0x80, 0, 0xC0, 0x17] + [rng.randrange(256) for _ in range(rng.choice([1, 5, 8]))])])
         if knobs.get("reply_pad") and cfg.priv:
             orig_reply = self.agent.reply
 
@@ -426,6 +431,8 @@ class Sess:
         if not expect_sent:
             self.exp = None
         call_op = {"open": "open"}.get(op, op)
+        if op == "open" and self.beh == "drop" and cfg.client == "async" and rng.random() < 0.5:
+            call_op = "open_cancel"   # the lost first exchange ends by cancellation from outside instead of the session's timeout
         lim = 5000
         if self.walk is not None and getattr(self, "abandon", False) and self.op in ("getnext", "getbulk", "fetch"):
             lim = rng.choice([1, 2])
